@@ -46,6 +46,8 @@ def check(run):
               'mode / concentration are not the (eigenvector, eigenvalue) pair returned by get_pca(covariance)', construct='R-SEL::ComplexWatsonTrainer._fit::pair')
     # integration models: both streams, exponent weighted, added (shared instance with C01)
     c01.check_models(run, A)
+    # ... and the posterior that is reported uses the same preprocessing of every stream as the E-steps of the fit
+    c01.check_predict_fit_symmetry(run, A)
     # ... and the inline-aligned variant of that E-step combines the streams with the permutation its search selected
     from . import c14
     c14.check_inline_pa(run, A)
